@@ -279,7 +279,9 @@ func (e *FieldExpression) unwrapReference(ref *dtpb.Reference) *dtpb.String {
 func (e *FieldExpression) unwrapOneof(obj proto.Message) proto.Message {
 	message := obj.ProtoReflect()
 	descriptor := message.Descriptor()
-	if name := string(descriptor.Name()); !(strings.HasSuffix(name, "ValueX") || name == "ContainedResource") {
+	// choice types are the nested messages named <Element>X that hold a oneof named "choice"
+	isChoice := strings.HasSuffix(string(descriptor.Name()), "X") && descriptor.Oneofs().ByName("choice") != nil
+	if name := string(descriptor.Name()); !(isChoice || name == "ContainedResource") {
 		return obj
 	}
 	oneofsNum := descriptor.Oneofs().Len()
